@@ -138,13 +138,13 @@ HARNESSES += [
     H('c_io_bufread', 'C14 C04', cfg='feature = "std"', ns_q=[0, 1, 3], ns_t=[0, 1, 2, 3, 4], unwind=lambda n: n + 4),
     # embedded-io(-async) vs std::io
     H('c_eio_vs_std', 'C16', cfg='all(feature = "std", feature = "embedded-io")', features='--features embedded-io,embedded-io-async',
-      call=lambda n: 'c_eio_vs_std::<%d, %d>()' % (n, n + 2), ns_q=[0, 1, 2], ns_t=[0, 1, 2, 3], unwind=lambda n: n + 5),
+      call=lambda n: 'c_eio_vs_std::<%d, %d>()' % (n, n + 2), ns_q=[0, 1, 3], ns_t=[0, 1, 2, 3], unwind=lambda n: n + 5),
     H('c_eio_async_vs_std', 'C16', cfg='all(feature = "std", feature = "embedded-io-async")', features='--features embedded-io,embedded-io-async',
-      call=lambda n: 'c_eio_async_vs_std::<%d, %d>()' % (n, n + 2), ns_q=[0, 1, 2], ns_t=[0, 1, 2, 3], unwind=lambda n: n + 5),
+      call=lambda n: 'c_eio_async_vs_std::<%d, %d>()' % (n, n + 2), ns_q=[0, 1, 3], ns_t=[0, 1, 2, 3], unwind=lambda n: n + 5),
     H('c_eio_vs_std', 'C16', name='c_eio_only', cfg='all(feature = "std", feature = "embedded-io")', features='--features embedded-io',
-      call=lambda n: 'c_eio_vs_std::<%d, %d>()' % (n, n + 2), ns_q=[2], ns_t=[0, 2], unwind=lambda n: n + 5),
+      call=lambda n: 'c_eio_vs_std::<%d, %d>()' % (n, n + 2), ns_q=[3], ns_t=[0, 3], unwind=lambda n: n + 5),
     H('c_eio_async_vs_std', 'C16', name='c_eio_async_only', cfg='all(feature = "std", feature = "embedded-io-async")', features='--features embedded-io-async',
-      call=lambda n: 'c_eio_async_vs_std::<%d, %d>()' % (n, n + 2), ns_q=[2], ns_t=[0, 2], unwind=lambda n: n + 5),
+      call=lambda n: 'c_eio_async_vs_std::<%d, %d>()' % (n, n + 2), ns_q=[3], ns_t=[0, 3], unwind=lambda n: n + 5),
     # zero-sized elements
     H('c_zst', 'C03 C19 C11', ns_q=[0, 1, 3], ns_t=[0, 1, 2, 3, 4, 5], unwind=lambda n: n + 4),
 ]
